@@ -383,6 +383,15 @@ def compile_op(prog, target, level, cpu=60):
                 blob = b"".join(i.name.encode() + b"@%x:" % i.address + bytes(i.data) for i in img.images)
                 events.append(("link", "", f.getvalue() + "\nIMAGES " + blob.hex()))
                 rec["img"] = dg(events[-1][2])
+                # the same object linked a second time in this process gives the same image, and linking does not change its input
+                img2 = api.link([obj], layout=io.StringIO(LAYOUT))
+                f2 = io.StringIO()
+                img2.save(f2)
+                blob2 = b"".join(i.name.encode() + b"@%x:" % i.address + bytes(i.data) for i in img2.images)
+                rec["relink"] = "same" if f2.getvalue() + "\nIMAGES " + blob2.hex() == events[-1][2] else "differs"
+                f3 = io.StringIO()
+                obj.save(f3)
+                rec["input_after_link"] = "same" if f3.getvalue() == objtext else "changed"
             except CpuTimeout:
                 rec["img"] = "!CpuTimeout"
             except Exception as ex:  # noqa
